@@ -708,10 +708,22 @@ func (f *Frame) builtin(st *State, e *ast.CallExpr, name string, preArgs []*Term
 		}
 		ln := c.sliceLen(s)
 		arr := c.sliceArr(s)
+		type hint struct{ idx, val *Term }
+		var hints []hint
 		for i := 1; i < len(e.Args); i++ {
 			v := f.convertTo(st, arg(i), f.typeOf(e.Args[i]), st0.Elem())
 			arr = Store(arr, ln, v)
+			hints = append(hints, hint{ln, v})
 			ln = Add(ln, IntLit(1))
+		}
+		if c.inQuant == 0 && len(hints) > 0 {
+			// name the new backing array and state where the appended elements are: this gives the solver the
+			// ground terms it needs as witnesses for "exists k :: s[k] == x" facts about the extended slice
+			named := c.define(arr, "apparr")
+			for _, h := range hints {
+				c.assume(st, Eq(App("select", elemSort(named.Sort), named, h.idx), h.val))
+			}
+			arr = named
 		}
 		return []*Term{c.mkSlice(s.Sort, ln, arr)}
 	case "make":
